@@ -442,3 +442,15 @@ ADDENDA12 = {
 }
 for _k, _v in ADDENDA12.items():
     CLAIMS[_k]["text"] = CLAIMS[_k]["text"].rstrip() + " " + _v
+
+ADDENDA13 = {
+    "C01": "Round 14: the truth of a call's result is taken under a test on the node's position only.",
+    "C07": "Round 14: None in a membership list is translated with IS NULL / IS NOT NULL.",
+    "C12": "Round 14: the truth of a call's result is taken under a test on the node's position only.",
+    "C14": "Round 14: ID-MEMO covers class-level collections of the relation and descriptor classes.",
+    "C18": "Round 14: the tag key is a reserved name.",
+    "C19": "Round 14: the effect table has a row for find_spec; a library call on the tag without a row stops the analysis.",
+    "C20": "Round 14: shares REL-LIVE.",
+}
+for _k, _v in ADDENDA13.items():
+    CLAIMS[_k]["text"] = CLAIMS[_k]["text"].rstrip() + " " + _v
